@@ -180,7 +180,7 @@ pub fn run(tier: Tier, rep: &mut Report) -> (String, String) {
     let th = n_threads(tier);
     let mut bounds = String::new();
     let fams: Vec<(Vec<&str>, usize, usize)> = match tier {
-        Tier::Quick => vec![(vec!["a", "b", "ñ"], 6, 3), (vec!["a", "ñ", "€", "😀"], 4, 2)],
+        Tier::Quick => vec![(vec!["a", "b", "ñ"], 7, 3), (vec!["a", "ñ", "€", "😀"], 5, 2), (vec!["a", "b"], 9, 4)],
         Tier::Thorough => vec![(vec!["a", "b", "ñ"], 8, 4), (vec!["a", "ñ", "€", "😀"], 5, 3), (vec!["a", "b"], 11, 5)],
         Tier::Miri => vec![(vec!["a", "ñ"], 2, 1)],
     };
